@@ -37,7 +37,7 @@ S = [0, 1, 59]
 MS = [0, 1, 9, 10, 99, 100, 999]
 SUB = [0, 1, 999]
 DURS = [1000000, 1500999, 0]
-GAPS = ["touch", "+1us", "+1ms", "far", "same", "first"]
+GAPS = ["touch", "+1us", "+1ms", "far", "same", "first", "near"]
 WRITERS = ["SRTWriter", "WebVTTWriter", "MicroDVDWriter", "DFXPWriter", "SinglePositioningDFXPWriter", "LegacyDFXPWriter", "SAMIWriter"]
 SLOW = {"DFXPWriter", "SinglePositioningDFXPWriter", "LegacyDFXPWriter", "SAMIWriter"}
 
@@ -99,6 +99,9 @@ def times_for(t, d, g1, g2):
             continue
         if g == "first":
             caps.append(caps[0])  # the first caption's timespan comes back (non-adjacent when a different one is between)
+            continue
+        if g == "near":
+            caps.append((ps + 400, pe + 300))  # not identical, but both ends within the same millisecond (usually)
             continue
         if g == "touch":
             ns = pe
@@ -435,8 +438,8 @@ def cases_for(d):
                     n += 1
                     if n % d["nparts"] != d["part"]:
                         continue
-                    if g1 == "first":
-                        continue  # "first" is only meaningful for the third caption (A, B, A)
+                    if g1 in ("first", "near"):
+                        continue  # "first" is only meaningful for the third caption (A, B, A); "near" is kept to the third one as well
                     times = times_for(t, dur, g1, g2)
                     if max(e for _, e in times) >= 86400000000:
                         continue
